@@ -176,7 +176,7 @@ def main : IO Unit := do
   for p in [0:w.procs.size] do
     if autostart.getD p false then
       w := (sched w aStart (p + 1) 0 w.now (w.proc p).prio).1
-  w := runAll 20000 w
+  w := runAll 3000 w
   let out ← IO.getStdout
   for l in w.log do
     out.putStrLn l
